@@ -1,5 +1,6 @@
 """C16 — cellsToLinkedMultiPolygon outlines exactly the union of the cells."""
 import math
+import os, json
 import gen
 from evalutil import *
 
@@ -327,6 +328,10 @@ def evaluate(ctx, rng, tier, focus, budget, broken):
                 v["key"] = "hashVertex-split"
         if len([v for v in viol_ if v.get("key") != "hashVertex-split"]) >= 12:
             break
+    if os.environ.get("VERIF_DEBUG16"):
+        open("/var/tmp/dbg16.json", "w").write(json.dumps([{k: str(v)[:300] for k, v in x.items()} for x in viol_], indent=1))
+    # violations attributed to the recorded finding last: the cut below must never hide a new one behind them
+    viol_ = [v for v in viol_ if v.get("key") != "hashVertex-split"] + [v for v in viol_ if v.get("key") == "hashVertex-split"]
     return {"evaluations": len(ops), "violations": viol_[:20], "distinct": [o[:120] for o in ops],
             "coverage": {"sets": sum(stats.values()), "by_kind": stats, "loops": nloops, "sets_compared_with_model_loops": nmodel,
                          "resolutions": sorted({(c[0] >> 52) & 15 for _, c in sets})},
